@@ -101,7 +101,8 @@ class LockEngine(Engine):
             o = self.obj_of_mutex(m)
             st.ghost.pop(('obs', o), None)          # the lock was released while waiting: earlier observations are stale
             st.ghost.pop(('discval', o), None)
-            st.ghost.pop(('dirty', o), None)          # a conditional wait releases with a full wake-up scan
+            # (a conditional wait releases the mutex - with a full wake-up scan - only if it has to block: with its condition already true
+            # it returns at once, so what the section changed before is still unannounced: ('dirty', o) stays)
             st.ghost[('waited', o)] = 1
             return [(st, TOP)]
         if callee in PURE_SIGN:
